@@ -11,7 +11,8 @@ from vf import gsx, parsing
 from vf.runner import Check, Result, exc_sig
 
 LEX = ["''", "'a'", "'it''s'", "'a\\'b'", '"x"', '"a\\"b"', '@v', '@@sv', '@`a b`', "@'a b'", '1', '007', '1.0', '1.50',
-       'x', '`x y`', '(', ')', ',', '=', '*', '::', '->', '-- c\n', '/* c */', '\n', 'select', 'from', 'where', "''''", '"\'"', '%']
+       'x', '`x y`', '(', ')', ',', '=', '*', '::', '->', '-- c\n', '/* c */', '\n', 'select', 'from', 'where', "''''", '"\'"', '%',
+       "'a\nb'", "'x  y'", "'a\tb'", '"p  q"', '||', 'AS']
 
 EMBED = [
     ('create_model_db', 'CREATE MODEL m FROM db ({q}) PREDICT y', 'query_str'),
@@ -31,7 +32,7 @@ EMBED = [
     ('native', 'SELECT * FROM db ({q})', 'native'),
 ]
 
-LAYOUTS = ['line', 'own_lines', 'indented']
+LAYOUTS = ['line', 'own_lines', 'indented', 'tight', 'tight_then_blank']
 
 
 def balanced(seq):
@@ -51,6 +52,11 @@ def lay(seq, layout):
         return ' '.join(seq)
     if layout == 'own_lines':
         return '\n' + ' '.join(seq) + '\n'
+    if layout == 'tight':
+        return ''.join(seq)
+    if layout == 'tight_then_blank':
+        # the first two lexemes adjacent, the others separated by one blank
+        return seq[0] + ' '.join(seq[1:]) if len(seq) > 1 else seq[0]
     return '\n    ' + '\n      '.join(seq) + '\n'
 
 
@@ -81,7 +87,7 @@ class CHECK(Check):
                         for layout in LAYOUTS:
                             out.append((ei, layout, seq))
                     elif n == 3:
-                        out.append((ei, LAYOUTS[(ei + len(seq[0])) % 3], seq))
+                        out.append((ei, LAYOUTS[(ei + len(seq[0])) % len(LAYOUTS)], seq))
                     else:
                         if ei in (0, 8, 11, 14):
                             out.append((ei, 'line', seq))
